@@ -4,8 +4,11 @@ package sim
 // It imports nothing from the library under test.
 
 import (
+	"bytes"
 	"errors"
 	"fmt"
+	"strconv"
+	"strings"
 	"unicode/utf8"
 )
 
@@ -411,7 +414,7 @@ func EncodeB2C(p *Pkt) []byte {
 		if p.QoS > 0 {
 			b = putU16(b, p.ID)
 		}
-		b = append(b, p.Pay...)
+		b = append(b, expandPay(p.Pay)...)
 		return frame(f, b)
 	case TPubAck:
 		return frame(0x40, putU16(nil, p.ID))
@@ -494,4 +497,35 @@ func splitLevels(s string) []string {
 		}
 	}
 	return append(out, s[start:])
+}
+
+// Large payloads are written "token~N" in scenarios and traces: N bytes on the
+// wire, "token." followed by padding.
+func expandPay(pay string) []byte {
+	i := strings.LastIndexByte(pay, '~')
+	if i < 0 {
+		return []byte(pay)
+	}
+	n, err := strconv.Atoi(pay[i+1:])
+	if err != nil || n <= i+1 {
+		return []byte(pay)
+	}
+	b := make([]byte, n)
+	copy(b, pay[:i])
+	b[i] = '.'
+	for j := i + 1; j < n; j++ {
+		b[j] = 'p'
+	}
+	return b
+}
+
+func shortPay(b []byte) string {
+	if len(b) <= 65536 {
+		return string(b)
+	}
+	i := bytes.IndexByte(b, '.')
+	if i < 0 || i > 64 {
+		i = 0
+	}
+	return string(b[:i]) + "~" + strconv.Itoa(len(b))
 }
